@@ -35,6 +35,16 @@ def shards(tier):
 
 
 def check_source(R, obs, name, src, calls, family):
+    from ..driver import time_limit, CaseTimeout
+    try:
+        with time_limit(30):
+            _check_source(R, obs, name, src, calls, family)
+    except CaseTimeout:
+        nslapi.VM._VERIF_OBSERVER = None
+        R.count("dropped_case_timeout")
+
+
+def _check_source(R, obs, name, src, calls, family):
     for opt in (False, True):
         rec = passes.BoundaryRecorder(check=True)
         comp = diff.Compiled(src, optimize=opt, listener=rec)
